@@ -17,7 +17,7 @@ import (
 
 var c17Labels = []string{"a", "www", "example", "com", "co", "uk", "ck", "kobe", "jp", "city", "github", "io", "blogspot", "local", "1", "2"}
 
-var c17Tails = []string{"", "/", "/p", "/p?q=1", "?q=1", ":8080", ":8080/p", "/p#f", "?q#f", "/p?u=http://other.example/x", ":8080?q=1", "?email=bob@mail.example.net", "/p?u=a@b.example", ":8080?x=y@z.example/w", "/a:b@c.example/"}
+var c17Tails = []string{"", "/", "/p", "/p?q=1", "?q=1", ":8080", ":8080/p", "/p#f", "?q#f", "/p?u=http://other.example/x", ":8080?q=1", "?email=bob@mail.example.net", "/p?u=a@b.example", ":8080?x=y@z.example/w", "/a:b@c.example/", "/РЕКЛАМА.png?q=ÉCOLE", "/\u212aelvin/\u0130"}
 
 var c17Sources = []string{
 	"example.com", "www.example.com", "a.example.com", "a.b.example.com", "example.co.uk", "www.example.co.uk", "a.co.uk", "co.uk", "uk",
@@ -166,7 +166,7 @@ func init() {
 		// histories on one reused Request object (the DNS engine's pool path): every
 		// ordered pair and a diagonal of triples over a host set
 		reuse := []string{"co.uk", "uk", "example.co.uk", "shop.example.co.uk", "www.ck", "foo.ck", "www.bar.foo.ck", "bar.foo.ck", "kobe.jp", "city.kobe.jp", "a.city.kobe.jp",
-			"x.kobe.jp", "a.x.kobe.jp", "github.io", "user.github.io", "a.user.github.io", "io", "amazonaws.com", "s3.amazonaws.com", "bucket.s3.amazonaws.com", "com", "example.com",
+			"x.kobe.jp", "a.x.kobe.jp", "github.io", "user.github.io", "a.user.github.io", "io", "amazonaws.com", "www.amazonaws.com", "s3.amazonaws.com", "bucket.s3.amazonaws.com", "com", "example.com",
 			"www.example.com", "localhost", "db.localhost", "local", "example.local", "a.example.local", "1.2.3.4", "4", "3.4", "blogspot.com", "a.blogspot.com", "example", "a.example", "EXAMPLE.COM", "www.EXAMPLE.com"}
 		fresh := map[string]rules.Request{}
 		for _, h := range reuse {
@@ -198,6 +198,26 @@ func init() {
 				}
 			}
 		}
+		// consecutive NewRequestForHostname calls (state remembered between calls would show)
+		for _, h1 := range reuse {
+			for _, h2 := range reuse {
+				rules.NewRequestForHostname(h1)
+				r2 := rules.NewRequestForHostname(h2)
+				reuseEvals++
+				if r2.Domain != refDomain(h2) || r2.Hostname != h2 {
+					c.Run.Violate(ev.Violation{Pred: "hostname-request-after-another", Sig: map[string]any{"first": h1, "second": h2},
+						What: fmt.Sprintf("NewRequestForHostname(%q) right after NewRequestForHostname(%q): Domain=%q, Public Suffix List gives %q", h2, h1, r2.Domain, refDomain(h2)), Replay: map[string]any{"url": "http://" + h2}})
+				}
+				u1, u2 := "https://"+h1+"/a", "https://"+h2+"/b"
+				rules.NewRequest(u1, u2, rules.TypeScript)
+				q2 := rules.NewRequest(u2, u1, rules.TypeScript)
+				reuseEvals++
+				if q2.Domain != refDomain(h2) || q2.SourceDomain != refDomain(h1) {
+					c.Run.Violate(ev.Violation{Pred: "request-after-another", Sig: map[string]any{"first": h1, "second": h2},
+						What: fmt.Sprintf("NewRequest(%q from %q) right after the swapped request: Domain=%q SourceDomain=%q, expected %q %q", u2, u1, q2.Domain, q2.SourceDomain, refDomain(h2), refDomain(h1)), Replay: map[string]any{"url": u2}})
+				}
+			}
+		}
 		cnt.mu.Lock()
 		cnt.evals += reuseEvals
 		cnt.mu.Unlock()
@@ -209,6 +229,10 @@ func init() {
 				u := base + strings.Repeat("Aa", (n-len(base))/2+1)
 				u = u[:n]
 				c17CheckURL(c, u, c17Sources[:3], srcDomains[:3], cnt)
+				// the cap falls inside a multi-byte letter
+				mb := base + strings.Repeat("Ж", (n-len(base))/2+2)
+				c17CheckURL(c, mb[:n], c17Sources[:3], srcDomains[:3], cnt)
+				c17CheckURL(c, mb[:n+1], c17Sources[:3], srcDomains[:3], cnt)
 			}
 		}
 		c.Run.Set("hostnames", int64(len(hosts)))
